@@ -3,13 +3,13 @@
 #   baseline suite passes with the patch, demo fails with it and passes without it.
 # Usage: seed_confirm.sh <seeded-dir>     (expects patch.diff and demo_*.rs)
 set -u
-D=$(realpath "$1"); W=/var/tmp/seedwt-$$; export CARGO_NET_OFFLINE=true
+D=$(realpath "$1"); FEAT="${2:-}"; W=/var/tmp/seedwt-$$; export CARGO_NET_OFFLINE=true
 git -C /repo worktree add -q --detach $W HEAD || exit 2
 trap 'git -C /repo worktree remove --force $W >/dev/null 2>&1; rm -rf $W' EXIT
 cd $W
 demo=$(ls $D/demo_*.rs | head -1); name=$(basename $demo .rs)
 mkdir -p rarena-allocator/tests; cp $demo rarena-allocator/tests/$name.rs
-echo "== demo WITHOUT patch"; cargo test -p rarena-allocator --offline --test $name 2>&1 | grep -E "^test result|error(\[|:)" | head -3
+echo "== demo WITHOUT patch"; cargo test -p rarena-allocator $FEAT --offline --test $name 2>&1 | grep -E "^test result|error(\[|:)" | head -3
 git apply $D/patch.diff || { echo "PATCH DOES NOT APPLY"; exit 2; }
 echo "== baseline suite WITH patch"; cargo test --workspace --no-fail-fast --offline --lib 2>&1 | grep -E "^test result|error(\[|:)" | head -3
-echo "== demo WITH patch"; cargo test -p rarena-allocator --offline --test $name 2>&1 | grep -E "^test result|error(\[|:)" | head -3
+echo "== demo WITH patch"; cargo test -p rarena-allocator $FEAT --offline --test $name 2>&1 | grep -E "^test result|error(\[|:)" | head -3
